@@ -1050,6 +1050,24 @@ def clause_read_merge(R, F, scans=("get_range", "all")):
                     for i in ins:
                         if any(a2 == a and s3 != s2 for (a2, s3) in control_deps(fn).get(i.bb, set())):
                             okr = True
+        # the overlay as `cache.iter()...for_each(|(k, h)| match h.latest() { Some(v) => insert, None => remove })`
+        for c in fn.calls():
+            if (c.method or "") not in ("for_each", "try_for_each") or fn.is_cleanup(c.bb) or not (mem and fn.sdominates(mem[0].bb, c.bb)):
+                continue
+            for cid in ((c.func or {}).get("arg_cl") or []):
+                g = F.fns.get(cid)
+                if g is None:
+                    continue
+                g = F.inlined(g)
+                ins2 = [x for x in g.calls() if (x.method or "") == "insert" and not g.is_cleanup(x.bb)]
+                rem2 = [x for x in g.calls() if (x.method or "") == "remove" and not g.is_cleanup(x.bb)]
+                for r in rem2:
+                    for (a, s2) in control_deps(g).get(r.bb, set()):
+                        t = g.term(a)
+                        if t["k"] == "switch" and mentions(origin(g, t["discr"]), "latest"):
+                            for i in ins2:
+                                if any(a2 == a and s3 != s2 for (a2, s3) in control_deps(g).get(i.bb, set())):
+                                    okr = True
         # equivalent idiom: the merged result is filtered afterwards by `retain(|k, _| <cache says k still has a value>)`
         for c in fn.calls():
             if (c.method or "") == "retain" and not fn.is_cleanup(c.bb) and mem and (fn.sdominates(disk[0].bb, c.bb) if disk else False):
